@@ -22,6 +22,9 @@ type fedField struct {
 	ArgID    bool
 	ArgFirst bool
 	Parent   string
+	// Common: the field exists with this name and type on every entity and is declared on the
+	// interface Node as well
+	Common bool
 }
 
 type fedType struct {
@@ -46,12 +49,16 @@ func (t *fedType) field(name string) *fedField {
 
 type fedSpec struct {
 	Abstract bool // the configuration has the interface Node and the union AnyE over all entities
-	NSub     int
-	Types    []*fedType
-	Roots    []*fedField
-	Muts     []*fedField
-	Seed     uint64
-	by       map[string]*fedType
+	// IfaceFieldsInOps: operations may select the interface's own fields (besides id) without a type
+	// condition. Off by default (abstract mode 3 = C01 with the flag "ifacefields"): the planner
+	// mishandles such selections in several ways (DESIGN.md 12.7), only one of which is classified.
+	IfaceFieldsInOps bool
+	NSub             int
+	Types            []*fedType
+	Roots            []*fedField
+	Muts             []*fedField
+	Seed             uint64
+	by               map[string]*fedType
 }
 
 var fedEnum = []string{"RED", "GREEN", "BLUE"}
@@ -93,6 +100,7 @@ func (s *fedSpec) safeName(name string) bool {
 func genFedSpec(W *core.Tape, rich bool, abstractMode int) *fedSpec {
 	s := &fedSpec{by: map[string]*fedType{}}
 	s.Abstract = abstractMode > 0 && W.Prob(0.45)
+	s.IfaceFieldsInOps = abstractMode == 3
 	nested := abstractMode > 0 // lists of lists come with the same switch as the abstract types
 	s.Seed = uint64(W.Intn(1 << 16))
 	s.NSub = 2 + W.Weighted([]int{3, 3, 2})
@@ -199,6 +207,19 @@ func genFedSpec(W *core.Tape, rich bool, abstractMode int) *fedSpec {
 			}
 			e.Fields = append(e.Fields, f)
 		}
+	}
+	if s.Abstract && W.Prob(0.6) {
+		// a field every entity has (declared on the interface Node too): a reference to one entity
+		// type or a String; each entity's copy may live in a different subgraph
+		typ := gTypeRef{Name: "String"}
+		if W.Prob(0.65) {
+			typ = gTypeRef{Name: ents[W.Intn(len(ents))].Name}
+		}
+		for _, e := range ents {
+			e.Fields = append(e.Fields, &fedField{Name: "c0", Type: typ, Owner: W.Intn(s.NSub), Parent: e.Name, Common: true})
+		}
+		node := s.by["Node"]
+		node.Fields = append(node.Fields, &fedField{Name: "c0", Type: typ, Owner: -1, Parent: "Node", Common: true})
 	}
 	if rich {
 		// @requires: a String field computed from a scalar sibling owned by another subgraph
@@ -326,7 +347,13 @@ func genFedSpec(W *core.Tape, rich bool, abstractMode int) *fedSpec {
 // ---- which subgraph knows what
 
 // external returns the fields of entity e that subgraph sub declares @external.
-func (s *fedSpec) external(e *fedType, sub int) map[string]bool {
+func (s *fedSpec) external(e *fedType, sub int) map[string]bool { return s.externalFor(e, sub, true) }
+
+// externalFor: withInterfaceFields also counts the interface's fields that sub only carries because
+// it declares the interface (SDL and subgraph schema); the data source metadata follows the
+// repository's own test configurations and leaves those out (they are neither root nor external
+// nodes there: the planner must fetch them from their owners).
+func (s *fedSpec) externalFor(e *fedType, sub int, withInterfaceFields bool) map[string]bool {
 	ext := map[string]bool{}
 	for _, g := range e.Fields {
 		if g.Owner == sub && g.Requires != "" {
@@ -340,6 +367,15 @@ func (s *fedSpec) external(e *fedType, sub int) map[string]bool {
 	for _, r := range all {
 		if r.Owner == sub && r.Provides != "" && r.Type.Name == e.Name {
 			ext[r.Provides] = true
+		}
+	}
+	if withInterfaceFields && s.ownsAbstract(sub) {
+		// the subgraph declares the interface, so each of its entity types has to carry the
+		// interface's fields: those it does not own are @external
+		for _, f := range e.Fields {
+			if f.Common {
+				ext[f.Name] = true
+			}
 		}
 	}
 	for name := range ext {
@@ -452,7 +488,11 @@ func (s *fedSpec) supergraphSDL() string {
 
 func (s *fedSpec) abstractSDL(t *fedType) string {
 	if t.Abstract == "interface" {
-		return "interface " + t.Name + " {\n  id: ID!\n}\n"
+		b := "interface " + t.Name + " {\n  id: ID!\n"
+		for _, f := range t.Fields {
+			b += "  " + fieldSDL(f) + "\n"
+		}
+		return b + "}\n"
 	}
 	return "union " + t.Name + " = " + strings.Join(t.Members, " | ") + "\n"
 }
@@ -564,6 +604,9 @@ func (s *fedSpec) gSchemaFor(sub int) *gSchema {
 			td := &gTypeDef{Name: t.Name, Kind: t.Abstract, Possible: t.Members, Fields: map[string]*gFieldDef{}}
 			if t.Abstract == "interface" {
 				td.Fields["id"] = &gFieldDef{Name: "id", Type: gTypeRef{Name: "ID", NonNull: true}}
+				for _, f := range t.Fields {
+					td.Fields[f.Name] = def(f)
+				}
 			}
 			sc.Types[t.Name] = td
 			continue
